@@ -340,6 +340,22 @@ func main() {
 					r.Violation(fmt.Sprintf("root-differs:%s:sh%d", u.name, sh), fmt.Sprintf("root after batch %+v on map %v is not the LIP-0039 root of the resulting map %v", b, s.assign, na), c)
 					continue
 				}
+				// the nodes stored by this very update (not only by the first update that reached the map) must be a
+				// complete trie: reopened at the new root it answers every key of the universe with a verifying proof
+				if bi%parts == part {
+					t2 := newTrie(root)
+					var proof *smt.Proof
+					var perr error
+					if p := vlib.Catch(func() { proof, perr = t2.Prove(db, u.keys) }); p != "" || perr != nil {
+						r.Violation(fmt.Sprintf("stored-nodes-incomplete:%s:sh%d", u.name, sh), fmt.Sprintf("after batch %+v on map %v the trie reopened at the new root cannot prove the universe: %v %s", b, s.assign, perr, p), c)
+						continue
+					}
+					if ok, verr := smt.Verify(u.keys, proof, root, u.keyLen); !ok || verr != nil {
+						r.Violation(fmt.Sprintf("stored-nodes-proof-invalid:%s:sh%d", u.name, sh), fmt.Sprintf("after batch %+v on map %v the proof generated from the stored nodes does not verify: %v", b, s.assign, verr), c)
+						continue
+					}
+					r.Add("post_update_reopen_proofs", 1)
+				}
 				if _, ok := seen[code(na)]; !ok {
 					ns := &state{assign: na, db: db, root: root}
 					seen[code(na)] = ns
